@@ -165,6 +165,18 @@ fn check(case: &Case10, ctx: &mut Ctx) -> Verdict {
                     }
                 }
                 ctx.obs.label("mixed-polarity-forms");
+                // flag i leaves class escapes alone, also inside a group
+                for (form, flags) in [(atom.clone(), "i"), (format!("[{atom}]"), "i"), (format!("[^{}]", Esc { kind: esc.kind.clone(), neg: !esc.neg }.render()), "i")] {
+                    // [^\P{X}] = \p{X}
+                    ctx.obs.eval(chars.len() as u64);
+                    match bulk_check(&form, flags, &chars, &want, ctx) {
+                        Err(v) => return v,
+                        Ok(Err(what)) => {
+                            return Verdict::Fail(Failure { sub: "membership(flag i)".into(), expected: format!("{form} with flag i matches the same characters as {atom} without it"), actual: what, detail: format!("code points U+{:04X}..U+{:04X}", chunk * CHUNK, (chunk + 1) * CHUNK - 1) })
+                        }
+                        Ok(Ok(())) => {}
+                    }
+                }
             }
             // boundaries of the set inside this chunk: checked again one character at a time through ^E$
             let mut boundary: Vec<char> = vec![];
